@@ -35,7 +35,12 @@ pub fn run_case(rng: &mut Rng) -> CaseOut {
     let mut out = CaseOut::default();
     let lang = &LSYM;
     let ns = rng.range(2, 3);
-    let ops: Vec<&'static str> = if rng.chance(1, 2) { SYM_OPS_BASIC.to_vec() } else { vec!["f", "g", "h", "k", "var", "c", "d", "u", "w", "app", "pair", "lam", "sum", "let", "bb", "idx"] };
+    let ops: Vec<&'static str> = match rng.below(3) {
+        0 => SYM_OPS_BASIC.to_vec(),
+        1 => vec!["f", "g", "h", "k", "var", "c", "d", "u", "w", "app", "pair", "lam", "sum", "let", "bb", "idx"],
+        // every field order the language has: a slot argument left and right of a binder, three children
+        _ => vec!["f", "g", "k", "var", "c", "d", "u", "app", "lam", "sum", "let", "bb", "idx", "sb", "bsl", "sb", "bsl", "ite"],
+    };
     let cfg = GenCfg { lang, ops, ns, max_depth: 2, max_names: 3, shadow: rng.chance(1, 2) };
     let mut h = gen_history(rng, &cfg, 5, 4);
     // wrappers over earlier terms, so that "equal through earlier unions of subterms" probes exist
